@@ -28,9 +28,17 @@ import (
 type scase struct {
 	N    int      `json:"n"`
 	Sigs []string `json:"sigs"`
+	// Stopper: 0, or the instance whose shutdown callback spawns a goroutine that stops that instance
+	Stopper int `json:"stopper"`
 }
 
-func (c scase) key() string { return fmt.Sprintf("n=%d/sigs=%s", c.N, strings.Join(c.Sigs, ",")) }
+func (c scase) key() string {
+	k := fmt.Sprintf("n=%d/sigs=%s", c.N, strings.Join(c.Sigs, ","))
+	if c.Stopper != 0 {
+		k += fmt.Sprintf("/stopper=%d", c.Stopper)
+	}
+	return k
+}
 
 // TestC16Child is the child process; it does nothing unless VERIF_C16_CHILD is set.
 func TestC16Child(t *testing.T) {
@@ -44,13 +52,26 @@ func TestC16Child(t *testing.T) {
 	if err != nil {
 		os.Exit(97)
 	}
+	stopper, _ := strconv.Atoi(os.Getenv("VERIF_C16_STOPPER"))
+	insts := map[int]*casket.Instance{}
 	for g := 1; g <= n; g++ {
-		if _, err := casket.Start(faketype.Input(g, 1, "none")); err != nil {
+		inst, err := casket.Start(faketype.Input(g, 1, "none", true))
+		if err != nil {
 			os.Exit(98)
 		}
+		insts[g] = inst
 	}
 	faketype.Rec.Take()
 	faketype.CbDelay = 3 * time.Millisecond
+	if stopper != 0 {
+		// what a plugin's shutdown callback may do: have its own instance stopped (it cannot
+		// call Stop itself: the walk over the instances holds the lock Stop needs)
+		faketype.CbHook = func(g int, kind string) {
+			if g == stopper && kind == "shutdown" {
+				go insts[g].Stop()
+			}
+		}
+	}
 	faketype.Rec.Sink = func(e faketype.Event) {
 		if (e.Ev == "cb" && (e.Kind == "shutdown" || e.Kind == "final")) || e.Ev == "stop" {
 			b, _ := json.Marshal(e)
@@ -75,7 +96,7 @@ func runChild(dir string, id int, c scase, rnd *rand.Rand) ([]string, error) {
 	logPath := fmt.Sprintf("%s/child_%d.log", dir, id)
 	os.Remove(logPath)
 	cmd := exec.Command(os.Args[0], "-test.run=^TestC16Child$")
-	cmd.Env = append(os.Environ(), "VERIF_C16_CHILD="+logPath, "VERIF_C16_N="+strconv.Itoa(c.N), "VERIF_OUT=")
+	cmd.Env = append(os.Environ(), "VERIF_C16_CHILD="+logPath, "VERIF_C16_N="+strconv.Itoa(c.N), "VERIF_C16_STOPPER="+strconv.Itoa(c.Stopper), "VERIF_OUT=")
 	if err := cmd.Start(); err != nil {
 		return nil, err
 	}
@@ -187,7 +208,7 @@ func shutdownPhase(t *testing.T, res *hx.Result) {
 					}
 					return
 				}
-				b, _ := json.Marshal(map[string]interface{}{"ev": "script", "n": c.N, "sigs": c.Sigs, "key": c.key()})
+				b, _ := json.Marshal(map[string]interface{}{"ev": "script", "n": c.N, "sigs": c.Sigs, "stopper": c.Stopper, "key": c.key()})
 				if hx.SelfTest() && id == 3 {
 					// duplicate a callback event: the trace must be rejected
 					for _, ln := range lines {
